@@ -40,6 +40,7 @@ KINDS = ['fixnum', 'float', 'bigint', 'rational', 'char', 'bool', 'nil', 'void',
          'list1', 'list2', 'improper', 'lambda', 'continuation']
 KINDS_SMALL = ['fixnum', 'float', 'char', 'string1', 'vector2', 'list2', 'nil', 'rational']
 FIXNUM_PALETTE = [0, 1, -1, 2, -(1 << 63), 1 << 62, 1 << 31, -(1 << 31), 1 << 32, 16]      # powers of two: divisions stay shifts (2^63-1 as a divisor is not decided in time)
+RANGE_PALETTE = [0, 1, 2]          # start / end around the length of the 1- and 2-element containers (arity 4 in the quick tier: 27 index triples per kind combination)
 RADIX_PALETTE = [0, 1, 3, 36, 37, (1 << 32) + 10]
 FLOAT_PALETTE = [0.0, -0.0, 1.5, -2.0, float('nan'), float('inf'), float('-inf'), 9223372036854775808.0, 1e308, 5e-324]
 BIG_PALETTE = [0, 5, -1, 1 << 63, -(1 << 64), 1 << 64]
@@ -249,7 +250,7 @@ def plan(prog, table, tier):
     if quick:
         for p in ('string-fill!', 'vector-fill!', 'string-copy!', 'vector-copy!', 'string-copy', 'substring', 'vector-copy', 'string->list', 'vector->list'):
             if p in procs and (p, 4) not in EXCLUDED_ARITY:
-                jobs.append(('builtin %s argc=4' % p, make_builtin_harness(prog, table, p, ['fixnum', 'string1', 'vector2', 'char'], 4, sym_float=False), on_panic))
+                jobs.append(('builtin %s argc=4' % p, make_builtin_harness(prog, table, p, ['fixnum', 'string1', 'vector2', 'char'], 4, sym_float=False, fix_palette=RANGE_PALETTE), on_panic))
     # radix arguments: the boundary values of a radix (0, 1, the largest legal 36, 37, a value that truncates to 10 in 32 bits)
     for p in ('string->number', 'number->string'):
         if p in procs:
